@@ -59,6 +59,7 @@ fn main() {
     "C14" => dispatch!(props::c14::C14),
     "C15" => dispatch!(props::c15::C15),
     "C16" => dispatch!(props::c16::C16),
+    "C17" => dispatch!(props::c17::C17),
     "C18" => dispatch!(props::c18::C18),
     "C19" => dispatch!(props::c19::C19),
     "C20" => dispatch!(props::c20::C20),
